@@ -319,7 +319,9 @@ func checkDateTime(zone string, loc *time.Location, unix int64) (ambiguous bool)
 		if strings.HasSuffix(f.key, "/rejects-own-encoding") {
 			f.key += "/" + abbreviationClass(name)
 		}
-		violation(f.key, func() string { return fmt.Sprintf("zone %s, instant %d (%s%+d s): %s", zone, unix, name, offset, f.what()) }, "datetime", c)
+		violation(f.key, func() string {
+			return fmt.Sprintf("zone %s, instant %d (%s%+d s): %s", zone, unix, name, offset, f.what())
+		}, "datetime", c)
 		return false
 	}
 	g := time.Time(got)
